@@ -56,7 +56,14 @@ def float_cases(rnd, thorough):
         out.append((lit, fmt_float(v)))
         if rnd.random() < 0.3:
             out.append(("(-%s)" % lit, fmt_float(-v) if v != 0 else fmt_float(-0.0)))
-    return [c for c in out if not c[1].startswith("-0") or c[1] != "-0"]
+    # a negated zero literal denotes negative zero: prints as -0, divides to -Unendlich, converts to the text "-0"
+    for z in ("0,0", "0,000", "00,0", "0,00000000000000000000"):
+        out.append(("(-%s)" % z, fmt_float(-0.0)))
+        out.append(("(1 durch (-%s))" % z, "-Unendlich"))
+        out.append(("(1 durch %s)" % z, "Unendlich"))
+        out.append(("((-%s) als Text)" % z, fmt_float(-0.0)))
+        out.append(("((eine Liste, die aus (-%s), 1,5 besteht) an der Stelle 1)" % z, fmt_float(-0.0)))
+    return out
 
 
 def decode_text(frags):
